@@ -23,8 +23,11 @@ def _base_of(e):
     t = c = False
     cur = e
     for _ in range(6):
-        if isinstance(cur, ast.Attribute) and cur.attr == 'T':
+        if isinstance(cur, ast.Attribute) and cur.attr in ('T', 'mT'):
             t = True
+            cur = cur.value
+        elif isinstance(cur, ast.Attribute) and cur.attr in ('H', 'mH'):
+            t = c = True
             cur = cur.value
         elif isinstance(cur, ast.Call) and isinstance(cur.func, ast.Attribute) and cur.func.attr in ('conj', 'conjugate') and not cur.args:
             c = True
@@ -125,6 +128,10 @@ def _complexness(fn, name, at, params, proj=None, m=None):
                 return None
         elif proj is not None and _callee_complexness(proj, m, v) == 'complex':
             verdicts.append('complex')
+        elif isinstance(v, ast.Call) and ast.unparse(v.func).endswith(('linalg.eigh', 'linalg.eig')) and v.args \
+                and any(isinstance(x, ast.Name) and x.id in params for x in ast.walk(v.args[0])) \
+                and not any(isinstance(a, ast.Assert) and 'iscomplexobj' in ast.unparse(a) for a in ast.walk(fn)):
+            verdicts.append('complex')      # eigenvectors of a Hermitian matrix given by the caller (density matrix): complex in general
         else:
             return None
     if not verdicts:
